@@ -225,18 +225,6 @@ class C09(XsProp):
     def canon_model(self, s):
         return s
 
-    def same_case(self, case, impl, mirror):
-        """min / max of zeros of opposite sign: IEEE 754 minNum/maxNum (and Rust's f64::min/max) allow either zero; the Flocq
-        instance of the model returns the negative one for min, the positive one for max, the hardware may return the other"""
-        if impl == mirror:
-            return True
-        w = src_of(case)[0] if src_of(case) else ''
-        ops = [x[5:] for x in case.split(' | ') if x.startswith('push ')]
-        zeros = ('R0000000000000000', 'R8000000000000000')
-        if w in ('min', 'max') and len(ops) == 2 and all(o in zeros for o in ops):
-            return impl.replace(zeros[1], zeros[0]) == mirror.replace(zeros[1], zeros[0])
-        return False
-
 
 from .common import hx
 PROP = C09()
